@@ -38,8 +38,13 @@ def run_demo(d):
 
 
 def main():
-    for pid in sys.argv[1:]:
-        wt, out = "/tmp/wt/" + pid, "/tmp/wt-out/" + pid
+    outroot, rename = "/tmp/wt-out", {"A": "A", "B": "B"}
+    args = sys.argv[1:]
+    if args and args[0] == "--round2":
+        outroot, rename = "/tmp/wt-out2", {"A": "C", "B": "D"}
+        args = args[1:]
+    for pid in args:
+        wt, out = "/tmp/wt/" + pid, outroot + "/" + pid
         meta = json.load(open(os.path.join(out, "meta.json")))
         by = {c["name"]: c for c in meta.get("changes", [])}
         for name in ("A", "B"):
@@ -63,11 +68,11 @@ def main():
             rc_u, o_u = run_demo(os.path.join(out, "demo" + name))
             ok = rc_b == 0 and rc_t == 0 and rc_c is not None and (rc_c != rc_u or o_c != o_u)
             print("%s-%s build=%s tests=%s demo changed rc=%s unchanged rc=%s -> %s" % (
-                pid, name, rc_b, rc_t, rc_c, rc_u, "CONFIRMED" if ok else "NOT CONFIRMED"))
+                pid, rename[name], rc_b, rc_t, rc_c, rc_u, "CONFIRMED" if ok else "NOT CONFIRMED"))
             if not ok:
                 print("   ", (o_t if rc_t else o_c or "")[-600:].replace("\n", "\n    "))
                 continue
-            dst = os.path.join(ROOT, "seeded", "%s-%s" % (pid, name))
+            dst = os.path.join(ROOT, "seeded", "%s-%s" % (pid, rename[name]))
             if os.path.exists(dst):
                 shutil.rmtree(dst)
             os.makedirs(os.path.join(dst, "demo"))
@@ -78,7 +83,7 @@ def main():
             open(os.path.join(dst, "demo", "confirmed_changed.txt"), "w").write("rc=%s\n%s" % (rc_c, (o_c or "")[-6000:]))
             open(os.path.join(dst, "demo", "confirmed_unchanged.txt"), "w").write("rc=%s\n%s" % (rc_u, (o_u or "")[-6000:]))
             c = by.get(name, {})
-            json.dump(dict(property=pid, name=name, origin="fresh sub-agent given only the property text and a scratch worktree",
+            json.dump(dict(property=pid, name=rename[name], origin="fresh sub-agent given only the property text and a scratch worktree",
                            summary=c.get("summary"), files=touched, manifests_when=c.get("manifests_when"),
                            expected_vs_actual=c.get("expected_vs_actual"),
                            confirmed=dict(applies=True, builds=True, existing_tests_pass=True,
